@@ -18,7 +18,11 @@ ASSUMPTIONS = ['single-threaded interleaving of the two policies\' operations as
 
 
 def queries(tier):
-    return [Query('isolation_kind%d' % k, 'c14_policies.cpp', {'KIND': k}, unwind=66, models=True, checks='none', timeout=900,
+    from checks import C05
+    hashq = C05.queries(tier, other_policy=True)
+    for q in hashq:
+        q.desc = 'policy Q = P::rebind<Q> publishes (hash search + v-table pointers) on the same ids, then P does from an arbitrary prior state: P as perfect as alone (2-9), Q unchanged (30)'
+    return hashq + [Query('isolation_kind%d' % k, 'c14_policies.cpp', {'KIND': k}, unwind=66, models=True, checks='none', timeout=900,
                   desc={1: 'B = A::rebind<B>', 2: 'B = A::rebind<B>::replace<error_handler, other>', 3: 'B = A::rebind<B>::remove<error_handler>', 5: 'B = A::rebind<B> with fast / checked perfect hash facets: hash statics are per policy', 4: 'B = A::rebind<B>, A built from facets with non-default extra arguments (vptr_map<A, std::map>, vectored_error<A, provider>)'}[k],
                   symbolic='the argument tuple of the calls made in A and B', bounds={'classes': 3, 'definitions': '2 + 3', 'updates': 3})
             for k in (1, 2, 3, 4, 5)]
